@@ -2648,3 +2648,14 @@ T("C07", "twin-d9-membership-only", CUG,
                     event not in loop.end_events
                 ):''',
   "the reachability test is implied for an event of the loop")
+
+# ============================================================ waves q / r
+for _P, _R in (("C01", "R1.17"), ("C05", "R5.16")):
+    M(_P, "selection-loses-callers-order", NODE,
+      "        return [self.outgoing_logic[index] for index in indices]",
+      "        return [n for i, n in enumerate(self.outgoing_logic) if i in indices]",
+      _R, "alternatives returned in list order instead of the order asked for (seed C01-r)")
+M("C05", "first-loop-body-only", PG,
+  "                remove_dummy_start_and_end_events_from_nested_graphs(\n                    node.sub_graph\n                )",
+  "                return remove_dummy_start_and_end_events_from_nested_graphs(\n                    node.sub_graph\n                )",
+  "R5.4", "only the first loop body of a level is cleaned (seed C05-q)")
